@@ -30,6 +30,7 @@ def _rules():
             lambda R, c, rid: c04.rule_e(R, c, rid),
             lambda R, c, rid: c05.rule_e(R, c, rid),
             lambda R, c, rid: preds.rule(R, c, rid, ["adjacent_left", "adjacent_right"]),
+            lambda R, c, rid: shared.content_split(R, c, rid),
         ],
         "partial": [
             lambda R, c, rid: c04.rule_i(R, c, rid),
